@@ -83,6 +83,18 @@ def judge (args : List String) (out : String) : String :=
       then "holds:outside-domain"
       else if sortRows o = sortRows (specBin (b / 1000000000) rows) then "holds" else "violates:rows-differ-from-spec"
     | _, _, _ => "violates:unparsable"
+  | ["pp", b, limit, rows] =>
+    -- the row limit applies to the rows AFTER re-binning: a limit that is not below their number leaves
+    -- the binned result complete (every bin present, counters conserved)
+    match Wire.parseInt b, Wire.parseNat limit, parseRows rows, parseRows out with
+    | some b, some n, some rows, some o =>
+      if b ≤ 0 ∨ b % 1000000000 ≠ 0 ∨ rows.any (fun r => match r.ts with | some t => t < 0 | none => false)
+      then "holds:outside-domain"
+      else
+        let want := specBin (b / 1000000000) rows
+        if n ≠ 0 ∧ n < want.length then "holds:outside-domain-limit-cuts"
+        else if sortRows o = sortRows want then "holds" else "violates:limit-cut-rows-before-binning"
+    | _, _, _, _ => "violates:unparsable"
   | _ => "violates:bad-op"
 
 end C13
